@@ -220,7 +220,7 @@ class Report:
 
     def replay(self, name, c):
         """write + run a replay script; record as confirmed cex if exit 1."""
-        d = os.path.join(VERIF, 'replays', self.prop)
+        d = os.path.join(os.environ.get('VERIF_REPLAY_DIR') or os.path.join(VERIF, 'replays'), self.prop)    # override only used by tools/try_seeded.sh
         os.makedirs(d, exist_ok=True)
         fn = os.path.join(d, '%s__%s.py' % (self.family, _slug(c.get('cls', name))))
         src = PRELUDE % REPO + '\n' + c['script'] + '\nNOT_REPRODUCED()\n'
